@@ -16,7 +16,12 @@ RULE = ("search: generated documents of nested blocks (block quotes, bullet/orde
         "correspondence: the extracted Coq line model (Dir/Lines.v, which runs the C08 model of parse_directive_text on the "
         "printed directive content) predicts the line of every construct of the same documents; "
         "non-trivial = document with a directive, include or container at depth >= 2")
-TRUSTED = ["coq/Dir/Lines.v is a hand transcription of the line arithmetic of _render_tokens / nested_render_text / "
+TRUSTED = ["gen/c04_linessrc.py: the arithmetic expressions of token_line, _render_tokens, nested_render_text, run_directive "
+           "(content_offset, warning line), MockState.nested_parse, MockIncludeDirective.run (lineno, start-after advance) located "
+           "structurally and regenerated into coq/Gen/LinesSrc.v; coq/Dir/Lines.v computes every line through them "
+           "(C04_arithmetic_src); trusted: the site location and the mapping Python int -> Z, token.map[i] -> map_i, "
+           "attribute -> parameter, str.count('\\n', 0, e) -> count_nl_upto",
+           "coq/Dir/Lines.v is a hand transcription of the control structure around that arithmetic in _render_tokens / nested_render_text / "
            "render_directive / run_directive / MockState.nested_parse / MockIncludeDirective.run",
            "markdown-it-py block parser: token.map, fence content (oracles O_map, O_fence_content)",
            "docutils admonition directives call nested_parse(content, content_offset, node) (O_adm)"]
@@ -40,8 +45,15 @@ ADM = {"note": "note", "tip": "tip", "warning": "warning", "admonition": "admoni
 
 
 def gen(ctx):
-    from gen import c08_unicode
+    from gen import c08_unicode, c08_dirsrc, c04_linessrc
+    from lib import common
     c08_unicode.generate(ctx)
+    # source-translation tie: the line arithmetic of base.py / mocking.py and the splitter of directives.py
+    text = c04_linessrc.generate(common.REPO)
+    changed = common.write_if_changed(common.COQ / "Gen" / "LinesSrc.v", text)
+    ctx.gen_info["LinesSrc"] = {"definitions": text.count("Definition"), "rewritten": changed}
+    text = c08_dirsrc.generate(common.REPO)
+    common.write_if_changed(common.COQ / "Gen" / "DirSrc.v", text)
     ctx.gen_info["sources"] = src_hashes(["myst_parser/parsers/directives.py", "myst_parser/mdit_to_docutils/base.py",
                                           "myst_parser/mocking.py"])
 
